@@ -127,7 +127,8 @@ class C04(RecorderProp):
             return super(C04, self).model_requests(case)
         rnd = random.Random(repr(sorted(case.items(), key=lambda kv: kv[0])))
         n = len(case['workers'])
-        return [{'m': 'c04.threads', 'main': case['main'], 'workers': case['workers'],
+        # (`disable` is switch off + discard: the model's main thread discards)
+        return [{'m': 'c04.threads', 'main': case['main'].replace('disable', 'discard'), 'workers': case['workers'],
                  'schedule': [rnd.randrange(n + 1) for _ in range(40)]}]
 
     def model_transcript(self, case, answers):
